@@ -218,11 +218,53 @@ def golden : List KMsg := [
       f "TopicNames" (.array .string) 0, f "TimeoutMs" .int32 0] },
   { apiKey := 20, isRequest := false, lo := 0, hi := 3, flexFrom := none, fields := [
       f "ThrottleTimeMs" .int32 1, f "Responses" (arr [f "Name" .string 0, f "ErrorCode" .int16 0]) 0] },
-  -- InitProducerId (22) v0–v1 (v2+ flexible: unaudited)
-  { apiKey := 22, isRequest := true, lo := 0, hi := 1, flexFrom := none, fields := [
-      fn "TransactionalId" .string 0 0, f "TransactionTimeoutMs" .int32 0] },
-  { apiKey := 22, isRequest := false, lo := 0, hi := 1, flexFrom := none, fields := [
+  -- InitProducerId (22) v0–v4
+  { apiKey := 22, isRequest := true, lo := 0, hi := 4, flexFrom := some 2, fields := [
+      fn "TransactionalId" .string 0 0, f "TransactionTimeoutMs" .int32 0,
+      f "ProducerId" .int64 3, f "ProducerEpoch" .int16 3] },
+  { apiKey := 22, isRequest := false, lo := 0, hi := 4, flexFrom := some 2, fields := [
       f "ThrottleTimeMs" .int32 0, f "ErrorCode" .int16 0, f "ProducerId" .int64 0, f "ProducerEpoch" .int16 0] },
+  -- DescribeGroups (15) v0–v5
+  { apiKey := 15, isRequest := true, lo := 0, hi := 5, flexFrom := some 5, fields := [
+      f "Groups" (.array .string) 0, f "IncludeAuthorizedOperations" .bool 3] },
+  { apiKey := 15, isRequest := false, lo := 0, hi := 5, flexFrom := some 5, fields := [
+      f "ThrottleTimeMs" .int32 1,
+      f "Groups" (arr [f "ErrorCode" .int16 0, f "GroupId" .string 0, f "GroupState" .string 0,
+        f "ProtocolType" .string 0, f "ProtocolData" .string 0,
+        f "Members" (arr [f "MemberId" .string 0, fn "GroupInstanceId" .string 4 4, f "ClientId" .string 0,
+          f "ClientHost" .string 0, f "MemberMetadata" .bytes 0, f "MemberAssignment" .bytes 0]) 0,
+        f "AuthorizedOperations" .int32 3]) 0] },
+  -- AddPartitionsToTxn (24) v0–v3
+  { apiKey := 24, isRequest := true, lo := 0, hi := 3, flexFrom := some 3, fields := [
+      f "TransactionalId" .string 0, f "ProducerId" .int64 0, f "ProducerEpoch" .int16 0,
+      f "Topics" (arr [f "Name" .string 0, f "Partitions" (.array .int32) 0]) 0] },
+  { apiKey := 24, isRequest := false, lo := 0, hi := 3, flexFrom := some 3, fields := [
+      f "ThrottleTimeMs" .int32 0,
+      f "Results" (arr [f "Name" .string 0,
+        f "Results" (arr [f "PartitionIndex" .int32 0, f "ErrorCode" .int16 0]) 0]) 0] },
+  -- AddOffsetsToTxn (25) v0–v3
+  { apiKey := 25, isRequest := true, lo := 0, hi := 3, flexFrom := some 3, fields := [
+      f "TransactionalId" .string 0, f "ProducerId" .int64 0, f "ProducerEpoch" .int16 0, f "GroupId" .string 0] },
+  { apiKey := 25, isRequest := false, lo := 0, hi := 3, flexFrom := some 3, fields := [
+      f "ThrottleTimeMs" .int32 0, f "ErrorCode" .int16 0] },
+  -- EndTxn (26) v0–v3
+  { apiKey := 26, isRequest := true, lo := 0, hi := 3, flexFrom := some 3, fields := [
+      f "TransactionalId" .string 0, f "ProducerId" .int64 0, f "ProducerEpoch" .int16 0, f "Committed" .bool 0] },
+  { apiKey := 26, isRequest := false, lo := 0, hi := 3, flexFrom := some 3, fields := [
+      f "ThrottleTimeMs" .int32 0, f "ErrorCode" .int16 0] },
+  -- TxnOffsetCommit (28) v0–v3
+  { apiKey := 28, isRequest := true, lo := 0, hi := 3, flexFrom := some 3, fields := [
+      f "TransactionalId" .string 0, f "GroupId" .string 0, f "ProducerId" .int64 0, f "ProducerEpoch" .int16 0,
+      f "GenerationId" .int32 3, f "MemberId" .string 3, fn "GroupInstanceId" .string 3 3,
+      f "Topics" (arr [f "Name" .string 0,
+        f "Partitions" (arr [f "PartitionIndex" .int32 0, f "CommittedOffset" .int64 0,
+          -- Kafka: nullableVersions 0+; the tree marks it nullable only in v3 (an empty string is written as
+          -- length 0 instead of null in v0–v2: both denote "no metadata") — reference follows the tree (audit note)
+          f "CommittedLeaderEpoch" .int32 2, fu "CommittedMetadata" .string 0]) 0]) 0] },
+  { apiKey := 28, isRequest := false, lo := 0, hi := 3, flexFrom := some 3, fields := [
+      f "ThrottleTimeMs" .int32 0,
+      f "Topics" (arr [f "Name" .string 0,
+        f "Partitions" (arr [f "PartitionIndex" .int32 0, f "ErrorCode" .int16 0]) 0]) 0] },
   -- SaslAuthenticate (36) v0–v1
   { apiKey := 36, isRequest := true, lo := 0, hi := 1, flexFrom := none, fields := [f "AuthBytes" .bytes 0] },
   { apiKey := 36, isRequest := false, lo := 0, hi := 1, flexFrom := none, fields := [
@@ -236,6 +278,7 @@ def golden : List KMsg := [
 ]
 
 def auditNotes : List String := [
+  "TxnOffsetCommit request CommittedMetadata: nullable 0+ in Kafka, the tree marks it nullable only in v3 (v0-v2 write \"\" as an empty string, not null) — reference follows the tree",
   "Metadata request Topics: nullable from v1 in Kafka (v0 uses the empty array for 'all topics'); the tree declares []string nullable from v0 and the element strings inherit `nullable` (an empty topic name is written as null) — reference follows the tree",
   "Fetch response AbortedTransactions: nullable (4+) in Kafka, never null in the tree — reference follows the tree",
   "OffsetFetch request Topics: nullable from v2 in Kafka, tree marks it nullable from v0 — reference follows the tree",
